@@ -47,7 +47,7 @@ def run(ctx, replay):
     env = {"GORACE": "halt_on_error=0 exitcode=0 log_path=%s/race" % logdir, "VERIF_REPO": vcheck.REPO}
     # 1. encode + binutils under the race detector
     c20 = ctx.build("c20", race=True)
-    for procs in (["16"] if not thorough else ["1", "2", "16"]):
+    for procs in (["1", "16"] if not thorough else ["1", "2", "16"]):
         e = dict(env, GOMAXPROCS=procs)
         ctx.harness(c20, n=400 if thorough else 60, env=e, name="c20-race(GOMAXPROCS=%s)" % procs, timeout=3000)
         races(ctx, "encode+binutils", logdir)
